@@ -94,9 +94,10 @@ def lastIdx (fields : List Field) (num : Nat) : Option Nat :=
     | f :: rest => go rest (i + 1) (if fieldNum f == some num then some i else acc)
   go fields 0 none
 
-/-- decoder.go:881-883: scale/offset of the component removed, those of the destination applied, `uint32(·)` -/
+/-- decoder.go:881-883: scale/offset of the component removed, those of the destination applied,
+`uint32(math.Round(·))` -/
 def componentValue (val cScale cOffset dScale dOffset : Nat) : Nat :=
-  cvt .u32 (Fit.ScaleOffset.discard (Fit.ScaleOffset.apply (ofInt (val : Nat)) cScale cOffset) dScale dOffset)
+  cvt .u32 (round (Fit.ScaleOffset.discard (Fit.ScaleOffset.apply (ofInt (val : Nat)) cScale cOffset) dScale dOffset))
 
 /-- the arithmetic of one component (decoder.go:881-883) is a parameter: `componentValue` for the model of the
 code, `Fit.Physical.specValue` for the specification -/
